@@ -619,6 +619,9 @@ impl File {
         self.failed_runid = None;
         self.is_override = false;
         self.is_generated = false;
+        // The content is no longer something redo produced: a checksum
+        // recorded for the old content says nothing about it.
+        self.csum.clear();
         Ok(())
     }
 
@@ -626,6 +629,10 @@ impl File {
         self.update_stamp(v, false)?;
         self.failed_runid = None;
         self.is_override = true;
+        // Likewise: if the generated file comes back later with its old
+        // content, redo-stamp must not call that "unchanged" -- what depends
+        // on it was built from the user's version in between.
+        self.csum.clear();
         Ok(())
     }
 
